@@ -329,6 +329,71 @@ func runValues(c *core.Case) {
 	c.Sample(0, map[string]any{"sub": "values", "type": jtypes.TypeString(t), "append_flag_subsets": 8, "parse_flag_subsets": "rotating over 15"})
 }
 
+// cyclic values: an error with the default flags, hence an error with every subset ----------------
+
+type cycNode struct {
+	M map[string]any
+	L []any
+}
+
+func cyclicValue(shape int) (string, any) {
+	switch shape {
+	case 0:
+		m := map[string]any{"a": 1}
+		m["self"] = m
+		return "map-self", m
+	case 1:
+		a, b := map[string]any{"x": "y"}, map[string]any{}
+		a["b"], b["a"] = b, a
+		return "two-maps", a
+	case 2:
+		m := map[string]any{}
+		m["k"] = map[string]any{"deeper": map[string]any{"back": m}}
+		return "map-in-struct", cycNode{M: m}
+	case 3:
+		m := map[string]any{}
+		m["k"] = []any{1, m}
+		return "map-through-slice", m
+	case 4:
+		m := map[string]any{}
+		n := &cycNode{M: m}
+		m["n"] = n
+		return "map-through-pointer", n
+	default:
+		m := map[string]any{}
+		m["m"] = m
+		return "map-in-slice", []any{"x", m}
+	}
+}
+
+func runCyclic(c *core.Case) {
+	name, x := cyclicValue(c.Index % 6)
+	for m := 0; m < 8; m++ {
+		fl := json.AppendFlags(0)
+		if m&1 != 0 {
+			fl |= json.EscapeHTML
+		}
+		if m&2 != 0 {
+			fl |= json.SortMapKeys
+		}
+		if m&4 != 0 {
+			fl |= json.TrustRawMessage
+		}
+		cl := "cyclic|" + name + "|" + flagName(fl)
+		c.Journal(cl)
+		var err error
+		if sig, stk := core.Guard(func() { _, err = json.Append(make([]byte, 0, 64), x, fl) }); sig != "" {
+			c.Violation(cl, sig, "Append of a cyclic value panicked: "+stk, nil)
+			continue
+		}
+		if err == nil {
+			c.Violation(cl, "no-error", fmt.Sprintf("Append of a cyclic value (%s) succeeds with flags %s; with the default flags it is an error", name, flagName(fl)), nil)
+		}
+		c.Count("cyclic.appends", 1)
+	}
+	c.Distinct(uint64(c.Index%6)+77, true)
+}
+
 // number modes ------------------------------------------------------------------------------
 
 var numFlags = []json.ParseFlags{json.UseNumber, json.UseBigInt, json.UseInt64, json.UseUint64}
@@ -460,10 +525,11 @@ func runNumbers(c *core.Case) {
 func init() {
 	core.Register(&core.Monitor{
 		Prop:    "C14",
-		Rule:    "values: a generated / library / map-heavy value (the six map encoders, elements that fail, RawMessages valid or - when TrustRawMessage is not in the subset - invalid, HTML-carrying keys) is appended under all 8 AppendFlags subsets: err==nil iff it is with the default flags; output valid JSON decoding (encoding/json, UseNumber) to the same generic value as the default output; SortMapKeys off: same length as the sorted output (a permutation); EscapeHTML off: bytes equal encoding/json's Encoder with SetEscapeHTML(false); Encoder setters equal the flag word. The default output is parsed back under rotating subsets of DontCopyString/DontCopyNumber/DontCopyRawMessage/DontMatchCaseInsensitiveStructFields (and through Decoder.ZeroCopy) and must be deeply equal to the flag-less parse with the input untouched. number-modes (also in fields, elements and map values of a named empty interface type, and behind a pointer the target interface already holds): number literals (boundaries of int64/uint64, beyond 64 bits, fractions, exponents, -0) in 4 contexts under all 16 subsets of UseNumber/UseBigInt/UseInt64/UseUint64: dynamic type per the documented precedence and exact numeric value (big.Int / strconv).",
+		Rule:    "cyclic: six values with a reference cycle through map[string]any (alone, through slices, pointers, struct fields) x all 8 flag subsets: an error, as with the default flags. values: a generated / library / map-heavy value (the six map encoders, elements that fail, RawMessages valid or - when TrustRawMessage is not in the subset - invalid, HTML-carrying keys) is appended under all 8 AppendFlags subsets: err==nil iff it is with the default flags; output valid JSON decoding (encoding/json, UseNumber) to the same generic value as the default output; SortMapKeys off: same length as the sorted output (a permutation); EscapeHTML off: bytes equal encoding/json's Encoder with SetEscapeHTML(false); Encoder setters equal the flag word. The default output is parsed back under rotating subsets of DontCopyString/DontCopyNumber/DontCopyRawMessage/DontMatchCaseInsensitiveStructFields (and through Decoder.ZeroCopy) and must be deeply equal to the flag-less parse with the input untouched. number-modes (also in fields, elements and map values of a named empty interface type, and behind a pointer the target interface already holds): number literals (boundaries of int64/uint64, beyond 64 bits, fractions, exponents, -0) in 4 contexts under all 16 subsets of UseNumber/UseBigInt/UseInt64/UseUint64: dynamic type per the documented precedence and exact numeric value (big.Int / strconv).",
 		Trusted: []string{"encoding/json (1.23.5) for generic decoding and the EscapeHTML(false) bytes", "math/big and strconv for numeric values", "the precedence table in expectNumber, transcribed from the flag documentation"},
 		Subs: []core.Sub{
 			{Name: "values", N: core.Const(60000, 1500000), Run: runValues},
+			{Name: "cyclic", N: core.Const(6, 6), Run: runCyclic},
 			{Name: "number-modes", N: core.Const(3000, 60000), Run: runNumbers},
 		},
 	})
